@@ -5,6 +5,7 @@ package main
 
 import (
 	"fmt"
+	"go/types"
 	"strings"
 
 	"golang.org/x/tools/go/ssa"
@@ -363,4 +364,194 @@ func ruleAdminPurge(c *Ctx) {
 		return
 	}
 	c.check(len(bad) == 0, "admin-route", name, pos, fmt.Sprintf("%d paths: RemoveHTTPCache(query 'cache', []byte(query 'key')) with a non-empty key; DELETE route registered", n), strings.Join(uniq(bad), " || "), n)
+}
+
+// ruleWatchEveryWrite: the file configuration watcher calls onChange for every
+// write event it receives (no event of a save is dropped), and only stops when
+// the watcher's channels are closed.
+func ruleWatchEveryWrite(c *Ctx) {
+	fn := c.P.Method("config", "fileClient", "Watch")
+	if fn == nil {
+		c.undecided("watch-every-write", "fileClient.Watch", "-", "not found")
+		return
+	}
+	name, pos := funcName(fn), c.P.pos(fn.Pos())
+	n, writes := 0, 0
+	bad := []string{}
+	sim := c.P.Simulate(fn, SimConfig{MaxVisits: 3}, func(pr *PathResult) {
+		n++
+		w, calls := 0, 0
+		for _, l := range pr.Conds {
+			if l.Pol && l.Atom.Op == "eq" && l.Atom.contains(func(x *Term) bool { return (x.Op == "fld" || x.Op == "fa") && x.Name == "Op" }) {
+				w++
+			}
+		}
+		for _, e := range pr.Events {
+			if e.Kind == "dyncall" && e.CalleeT != nil && e.CalleeT.Op == "sym" && e.CalleeT.Name == "p:onChange" {
+				calls++
+			}
+		}
+		writes += w
+		if calls < w {
+			bad = append(bad, fmt.Sprintf("%d write event(s) received but onChange called %d time(s): a saved configuration is not applied until some later save, on path [%s]", w, calls, condString(pr.Conds)))
+		}
+	})
+	if sim.Overflow || writes == 0 {
+		c.undecided("watch-every-write", name, pos, "idiom not recognised")
+		return
+	}
+	c.check(len(bad) == 0, "watch-every-write", name, pos, fmt.Sprintf("%d paths: every write event is followed by onChange()", n), strings.Join(uniq(bad), " || "), n)
+}
+
+// rulePoolFields: pike configures only the policy and the ping path of the
+// dependency's health-checked pool; every other parameter keeps the dependency's
+// default (on which "servers whose health checks currently pass" relies).
+func rulePoolFields(c *Ctx) {
+	n := 0
+	bad := []string{}
+	for _, f := range c.P.allFuncs {
+		for _, b := range f.Blocks {
+			for _, in := range b.Instrs {
+				st, ok := in.(*ssa.Store)
+				if !ok {
+					continue
+				}
+				fa, ok := st.Addr.(*ssa.FieldAddr)
+				if !ok {
+					continue
+				}
+				fv := fieldOf(fa.X.Type(), fa.Field)
+				if fv.Pkg() == nil || fv.Pkg().Path() != "github.com/vicanso/upstream" {
+					continue
+				}
+				n++
+				if fv.Name() != "Policy" && fv.Name() != "Ping" {
+					bad = append(bad, fmt.Sprintf("%s: %s sets %s of the upstream pool (health-check parameters must keep the dependency's defaults: e.g. one probe can never reach its fail threshold of two)", c.P.pos(st.Pos()), funcName(f), fv.Name()))
+				}
+			}
+		}
+	}
+	if n < 2 {
+		c.undecided("pool-fields", "upstream", "-", "Policy/Ping wiring not found")
+		return
+	}
+	c.check(len(bad) == 0, "pool-fields", "upstream", "upstream/upstream.go", fmt.Sprintf("%d stores to fields of the dependency's pool: Policy and Ping only", n), strings.Join(uniq(bad), " || "), n)
+}
+
+// ruleProxyHandlerDirect: the handler stored as an upstream's Proxy is the
+// library's reverse-proxy handler itself; a pike wrapper around it must call it
+// at most once per request.
+func ruleProxyHandlerDirect(c *Ctx) {
+	fn := c.P.Func("upstream", "NewUpstreamServer")
+	if fn == nil {
+		c.undecided("proxy-handler-direct", "NewUpstreamServer", "-", "not found")
+		return
+	}
+	name, pos := funcName(fn), c.P.pos(fn.Pos())
+	n := 0
+	bad := []string{}
+	seen := false
+	c.P.Simulate(fn, SimConfig{Inline: func(callee *ssa.Function, d int) bool {
+		return inPkg(callee, "upstream") && callee.Name() == "newProxyMid"
+	}}, func(pr *PathResult) {
+		n++
+		for _, e := range pr.Events {
+			if e.Kind != "store" || e.Addr.Op != "fa" || e.Addr.Name != "Proxy" {
+				continue
+			}
+			seen = true
+			v := e.Val.strip()
+			if v.Op == "call" && v.Fn != nil && v.Fn.String() == "github.com/vicanso/elton/middleware.NewProxy" {
+				continue
+			}
+			if (v.Op == "closure" || v.Op == "func") && v.Fn != nil && isPikeFunc(v.Fn) {
+				// a wrapper: it may call the wrapped handler at most once per path
+				c.P.Simulate(v.Fn, SimConfig{}, func(p2 *PathResult) {
+					calls := 0
+					for _, e2 := range p2.Events {
+						if e2.Kind == "dyncall" {
+							calls++
+						}
+					}
+					if calls > 1 {
+						bad = append(bad, fmt.Sprintf("the upstream's Proxy handler is a wrapper (%s) that invokes the reverse proxy %d times on one path: one client request can reach the origin twice", funcName(v.Fn), calls))
+					}
+				})
+				continue
+			}
+			bad = append(bad, "the upstream's Proxy handler is "+prettyTerm(v)+", not the reverse-proxy handler built by middleware.NewProxy")
+		}
+	})
+	if !seen {
+		c.undecided("proxy-handler-direct", name, pos, "no store to the Proxy field found")
+		return
+	}
+	c.check(len(bad) == 0, "proxy-handler-direct", name, pos, "upstreamServer.Proxy is middleware.NewProxy(...) itself (or a wrapper calling it at most once)", strings.Join(uniq(bad), " || "), n)
+}
+
+// mayReturnNil: v is the (first) result of a pike function one of whose returns
+// yields a nil constant in that position.
+func mayReturnNil(v ssa.Value) bool {
+	var call *ssa.Call
+	idx := 0
+	switch x := v.(type) {
+	case *ssa.Extract:
+		call, _ = x.Tuple.(*ssa.Call)
+		idx = x.Index
+	case *ssa.Call:
+		call = x
+	}
+	if call == nil {
+		return false
+	}
+	sc := call.Call.StaticCallee()
+	if sc == nil || sc.Blocks == nil {
+		return false
+	}
+	for _, b := range sc.Blocks {
+		for _, in := range b.Instrs {
+			if r, ok := in.(*ssa.Return); ok && idx < len(r.Results) {
+				if cst, ok := r.Results[idx].(*ssa.Const); ok && cst.Value == nil {
+					return true
+				}
+			}
+		}
+	}
+	return false
+}
+
+// ruleTypedNilStore: store.NewStore never boxes a possibly-nil concrete pointer
+// into the Store interface (a typed nil passes the dispatcher's `store != nil`
+// test and panics on first use).
+func ruleTypedNilStore(c *Ctx) {
+	iface := c.P.NamedType("store", "Store")
+	fn := c.P.Func("store", "NewStore")
+	if iface == nil || fn == nil {
+		c.undecided("typed-nil-store", "store.NewStore", "-", "not found")
+		return
+	}
+	n := 0
+	bad := []string{}
+	for _, f := range c.P.allFuncs {
+		if !inPkg(f, "store") && !inPkg(f, "cache") {
+			continue
+		}
+		for _, b := range f.Blocks {
+			for _, in := range b.Instrs {
+				mi, ok := in.(*ssa.MakeInterface)
+				if !ok || !types.Identical(mi.Type(), iface) {
+					continue
+				}
+				n++
+				switch x := mi.X.(type) {
+				case *ssa.Alloc:
+				case *ssa.Extract, *ssa.Call, *ssa.Phi, *ssa.UnOp:
+					if !isFreshBase(x.(ssa.Value), c.P, 0) || mayReturnNil(x.(ssa.Value)) {
+						bad = append(bad, fmt.Sprintf("%s: %s converts a %s that may be nil into the Store interface: the result is a non-nil interface holding a nil pointer", c.P.pos(mi.Pos()), funcName(f), mi.X.Type()))
+					}
+				}
+			}
+		}
+	}
+	c.check(len(bad) == 0, "typed-nil-store", "store.NewStore", c.P.pos(fn.Pos()), fmt.Sprintf("%d conversions to store.Store, all of freshly allocated back ends", n), strings.Join(uniq(bad), " || "), n+1)
 }
